@@ -530,9 +530,30 @@ pub fn run(a: &Args, rep: &mut Report, cl: bool) {
         let ends = sys::run_batch_ex(cases.len(), 60, 30, |i, out| {
             reset(&l);
             let prog = &progs[i];
+            // fixed VM loaded through set_program after it was created for LARGER offsets: the
+            // same access on a VM created for (0, 8) directly is the reference (interpreter only)
+            let shrink = !cl && l.kind == Kind::Fixed && cases[i].via_set_program && cases[i].off % 2 == 0;
+            let mut fresh_status = 255u8;
+            if shrink {
+                let fr = sys::catch(|| -> Result<u64, String> {
+                    let mut vm = Vm::new(l.kind, Some(prog), (0, 8))?;
+                    for r in &l.ranges {
+                        vm.register_allowed(r.clone());
+                    }
+                    hooks::reset(10_000, false);
+                    let pk = l.pkt.as_ref().map(|p| (p.addr() as *mut u8, p.len())).unwrap_or((std::ptr::null_mut(), 0));
+                    vm.exec(pk, (std::ptr::null_mut(), 0))
+                });
+                fresh_status = match fr {
+                    Ok(Ok(_)) => 0,
+                    Ok(Err(_)) => 1,
+                    Err(_) => 2,
+                };
+                reset(&l);
+            }
             let r = sys::catch(|| {
                 let mut vm = if cases[i].via_set_program {
-                    let mut vm = Vm::new(l.kind, None, (0, 8)).map_err(|e| format!("REJECTED {e}"))?;
+                    let mut vm = Vm::new(l.kind, None, if shrink { (0x40, 0x50) } else { (0, 8) }).map_err(|e| format!("REJECTED {e}"))?;
                     for r in &l.ranges {
                         vm.register_allowed(r.clone());
                     }
@@ -586,6 +607,7 @@ pub fn run(a: &Args, rep: &mut Report, cl: bool) {
             let ml = m.len().min(200);
             out.push(ml as u8);
             out.extend_from_slice(&m[..ml]);
+            out.push(fresh_status);
         }, &mut on_death);
         // judge
         let mem_at = |addr: u64| -> Option<u8> {
@@ -656,6 +678,7 @@ pub fn run(a: &Args, rep: &mut Report, cl: bool) {
             let mo = 18 + nch * 9;
             let ml = rec[mo] as usize;
             let msg = String::from_utf8_lossy(&rec[mo + 1..mo + 1 + ml]).to_string();
+            let fresh_status = rec.get(mo + 1 + ml).copied().unwrap_or(255);
             // effective address
             let mut all = regs.clone();
             // Cranelift: the stack lives in the native stack of the child and has no hook; stack
@@ -691,6 +714,12 @@ pub fn run(a: &Args, rep: &mut Report, cl: bool) {
             if msg.starts_with("REJECTED") {
                 rep.inconclusive(format!("harness program rejected: {msg}"));
                 continue;
+            }
+            if fresh_status != 255 {
+                rep.count("compared_with_vm_created_for_these_offsets");
+                if fresh_status != st {
+                    rep.violation(&format!("{prop}:bounds-depend-on-vm-history:{sigbase}"), format!("a fixed VM created for offsets (0x40,0x50) and re-loaded with (0,8) gave status {st}; a VM created for (0,8) gives {fresh_status} (0 = performed, 1 = refused) for the access at {addr:#x}"), w.clone());
+                }
             }
             let is_store = matches!(c.acc, Acc::St | Acc::Stx | Acc::Xadd);
             match (exp, st) {
